@@ -26,6 +26,11 @@ inductive Inl where
   | autolink (uri : Bytes)
   | rawtag (b : Bytes)
   | entity (name : Bytes) (decoded : Bytes)
+  /-- intraword emphasis `pre*mid*post` (`**` when `strong`): three words written without separators. All three consist of
+      letters, digits and non-ASCII characters that CommonMark 0.30 counts neither as Unicode whitespace nor as
+      punctuation (letters, and SYMBOLS such as `£ € © × →`: general categories Sc/Sm/So are not punctuation in 0.30), so
+      both `*` runs are left- and right-flanking and §6.2 rules 1, 5 make `mid` (strongly) emphasised -/
+  | intra (strong : Bool) (pre mid post : Bytes)
   /-- the separator *before* this item is a hard / soft line break instead of a space -/
   | hardbreak
   | softbreak
@@ -94,6 +99,7 @@ def plainInl : Inl → Bytes
   | .autolink u => u
   | .rawtag _ => []
   | .entity _ d => d
+  | .intra _ a b c => a ++ b ++ c
   | .hardbreak => []
   | .softbreak => []
 /-- Items are separated by single spaces; a break item replaces the separator before the next item. -/
@@ -129,6 +135,8 @@ def denoteInl (e : Env) : Inl → Bytes
   | .autolink u => s "<a href=\"" ++ escAttr (uriEncode u) ++ s "\">" ++ escAttr u ++ s "</a>"
   | .rawtag b => withEol e.eol b
   | .entity _ d => escText d
+  | .intra st a b c =>
+    escText a ++ (if st then s "<strong>" else s "<em>") ++ escText b ++ (if st then s "</strong>" else s "</em>") ++ escText c
   | .hardbreak => []
   | .softbreak => []
 /-- Items separated by one space; `hardbreak`/`softbreak` items turn the separator into a break. -/
@@ -212,6 +220,22 @@ def serDest (c : Choices) (d : Bytes) : Bytes × Choices :=
   else (escIn (s "()\\&") d, c')
 
 mutual
+/-- Does intraword `*` emphasis occur inside? Then an enclosing emphasis must be written with `_`: an enclosing `*`
+    could pair with the inner both-flanking runs. -/
+def hasIntra : Inl → Bool
+  | .intra _ _ _ _ => true
+  | .emph ks => hasIntras ks
+  | .strong ks => hasIntras ks
+  | .link ks _ _ => hasIntras ks
+  | .image ks _ _ => hasIntras ks
+  | .reflink ks _ => hasIntras ks
+  | _ => false
+def hasIntras : List Inl → Bool
+  | [] => false
+  | k :: ks => hasIntra k || hasIntras ks
+end
+
+mutual
 /-- Inline items are separated by one space; `hardbreak`/`softbreak` items replace the separator. `pre` is
     the prefix put at the start of every continuation line (container prefixes). -/
 def serInl (pre : Bytes) (eol : Bytes) (c : Choices) : Inl → Bytes × Choices
@@ -224,12 +248,12 @@ def serInl (pre : Bytes) (eol : Bytes) (c : Choices) : Inl → Bytes × Choices
     (tick ++ (if pad then [0x20] else []) ++ b ++ (if pad then [0x20] else []) ++ tick, c)
   | .emph ks =>
     let (k, c1) := pick c 2
-    let d : UInt8 := if k == 0 then 0x2A else 0x5F
+    let d : UInt8 := if k == 0 && !hasIntras ks then 0x2A else 0x5F
     let (body, c2) := serInls pre eol c1 ks
     ([d] ++ body ++ [d], c2)
   | .strong ks =>
     let (k, c1) := pick c 2
-    let d : UInt8 := if k == 0 then 0x2A else 0x5F
+    let d : UInt8 := if k == 0 && !hasIntras ks then 0x2A else 0x5F
     let (body, c2) := serInls pre eol c1 ks
     ([d, d] ++ body ++ [d, d], c2)
   | .link ks d t =>
@@ -248,6 +272,7 @@ def serInl (pre : Bytes) (eol : Bytes) (c : Choices) : Inl → Bytes × Choices
   | .autolink u => (s "<" ++ u ++ s ">", c)
   | .rawtag b => (contLines pre eol b, c)
   | .entity n _ => (s "&" ++ n ++ s ";", c)
+  | .intra st a b d => (a ++ (if st then [0x2A, 0x2A] else [0x2A]) ++ b ++ (if st then [0x2A, 0x2A] else [0x2A]) ++ d, c)
   | .hardbreak => ([], c)
   | .softbreak => ([], c)
 def serInls (pre : Bytes) (eol : Bytes) (c : Choices) : List Inl → Bytes × Choices
